@@ -267,7 +267,7 @@ def gen_grid(rng, allow_outside=False, fixed_p=0.15, offset_p=0.0):
     if rng.random() < 0.3:
         name[pts[0]] = '0'
     lines = []
-    feats = {'fixed': False, 'free': False, 'offset': False, 'outside': False, 'cycle': len(keep) >= len(pts), 'multi_pin': False}
+    feats = {'fixed': False, 'free': False, 'offset': False, 'outside': False, 'cycle': len(keep) >= len(pts), 'multi_pin': False, 'explicit_false': False}
     counters = {}
     for a, b in keep:
         if rng.random() < 0.5:
@@ -289,8 +289,13 @@ def gen_grid(rng, allow_outside=False, fixed_p=0.15, offset_p=0.0):
         if not in_table(ang):
             feats['outside'] = True
         if fixed:
-            h += ', fixed'
+            # every spelling of a boolean hint that Opts.add reads as true
+            h += rng.choice([', fixed', ', fixed', ', fixed=true', ', fixed=True'])
             feats['fixed'] = True
+        elif rng.random() < 0.12:
+            # ... and an explicitly switched-off hint (a no-op): `fixed=false`, `free=False` ...
+            h += rng.choice([', fixed=false', ', fixed=False', ', free=false', ', free=False'])
+            feats['explicit_false'] = True
         args = ''
         if cpt in ('R', 'C', 'L', 'V', 'I') and rng.random() < 0.5:
             args = ' %d' % rng.randint(1, 9)
@@ -597,8 +602,8 @@ def features_of(lines):
     f = {'fixed': False, 'free': False, 'offset': False, 'outside': False, 'cycle': False, 'multi_pin': False}
     for l in lines:
         o = l.split(';', 1)[1] if ';' in l else ''
-        f['fixed'] |= 'fixed' in o
-        f['free'] |= 'free' in o
+        f['fixed'] |= bool(re.search(r'\bfixed\b(?!\s*=\s*[Ff]alse)', o))
+        f['free'] |= bool(re.search(r'\bfree\b(?!\s*=\s*[Ff]alse)', o))
         f['offset'] |= 'offset' in o
         base = 0
         for d, (_, _, a) in DIRS.items():
@@ -793,9 +798,17 @@ def run(chk, replay=None):
             if not mp.startswith('error:') and drv.ask1(req('lay.check', k, lines) + ' || ' + mp) == 'ok':
                 witness = 'model-longest-path'
         chk.count('witness', witness or 'none')
+        def _rep(l):
+            toks = [t for t in l.split(';')[0].split()[1:] if t not in ('opamp', 'fdopamp', 'inamp')]
+            return l.split()[0][0] == 'E' and len(toks) >= 4 and len(set(toks[:5])) < len(toks[:5])
+        repeated = any(_rep(l) for l in lines)
         for method in ('graph', 'lineq'):
             key = {'method': method, 'angle_outside_table': bool(feats.get('outside')), 'fixed': bool(feats.get('fixed')),
                    'multi_pin': bool(feats.get('multi_pin')), 'offset': bool(feats.get('offset'))}
+            if repeated:
+                # a node name occurs twice in one component (undrawn reference node + drawn pin): Cpt.required_pins
+                key['repeated_node_in_component'] = True
+            e2e = None
             replay_base = {'input': {'netlist': lines, 'node_spacing': fstr(k), 'method': method, 'draw_options': extra, 'origin': origin},
                            'consistency_witness': witness}
             try:
@@ -825,6 +838,7 @@ def run(chk, replay=None):
                         if mx == '?' or not c20_placer.close(Fraction(mx), x) or not c20_placer.close(Fraction(my), y):
                             dd.append('%s model %s lcapy %s,%s' % (n, mp.get(n), fstr(x), fstr(y)))
                     chk.count('placer', 'end-to-end:%s' % ('differ' if dd else 'same'))
+                    e2e = not dd
                     if dd:
                         chk.coverage['correspondence']['disagreements'] += 1
                         disagreements.append({'what': 'placer:end-to-end', 'netlist': lines, 'spacing': fstr(k), 'detail': dd[:6]})
@@ -842,6 +856,12 @@ def run(chk, replay=None):
                                            'lcapy': {n: '%s,%s' % (fstr(x), fstr(y)) for n, (x, y) in pos.items()}})
                 failing = verdict.split(' ; all=')[1].split(',') if ' ; all=' in verdict else []
                 key2 = dict(key, failure=verdict.split(':')[0].replace('fail ', ''), violated=violated_kind(lines, k, verdict),
+                            # the Lean model of schemgraph.Graph.solve reproduces exactly these positions: the violation is the
+                            # behaviour of the modelled (unchanged) algorithm, not of a changed placer
+                            placer_model_reproduces=e2e,
+                            # the known finding C20-F20b is the behaviour of the MODELLED algorithm: a violating layout that
+                            # the faithful model of schemgraph.Graph.solve does not reproduce is something else
+                            method=(method if e2e is not False else method + ':not-the-modelled-algorithm'),
                             # a fixed-size item (fixed hint / rigid body) is among the violated ones
                             violated_fixed=any(f.endswith(':f') for f in failing),
                             # Lcapy's own Graph.check_positions / assign_stretchy1 messages, by kind
@@ -905,6 +925,19 @@ def run(chk, replay=None):
     for i in range(n_multi):
         lines, truth, feats = gen_multipin(rng)
         one_case(lines, rng.choice(spacings), truth, feats, 'multipin:' + feats['template'])
+    # a node name repeated inside one component (E-opamp with an input on its undrawn reference node): Lcapy raises
+    # IndexError (Cpt.required_pins, finding C20-F23).  The family runs once the finding is recorded (known or fixed) in
+    # known-findings.json, so that the unchanged tree stays green until the coordinator has done so.
+    if any(f.get('id') == 'C20-F23' for f in chk.findings):
+        for i in range(4 if quick else 40):
+            gnd = rng.choice(['0', 'g'])
+            ins = rng.choice([('%s' % gnd, 'm'), ('p', '%s' % gnd)])
+            lines = ['E1 o %s opamp %s %s; %s%s' % (gnd, ins[0], ins[1], rng.choice(list(DIRS)), rng.choice(['', ', mirror'])),
+                     'R1 i %s; %s=%s' % (ins[1] if ins[0] == gnd else ins[0], rng.choice(list(DIRS)), dec(rng.choice([1, 1.5, 2]))),
+                     'W o q; %s=%s' % (rng.choice(list(DIRS)), dec(rng.choice([0.5, 1])))]
+            one_case(lines, rng.choice(spacings), None, dict(features_of(lines), multi_pin=True), 'r3-repeated-node')
+    else:
+        chk.count('skipped', 'r3-repeated-node family (finding C20-F23 not recorded yet)')
     for i in range(n_r3):
         lines, truth, feats = gen_round3(rng)
         one_case(lines, rng.choice(spacings), truth, feats, feats['template'],
